@@ -170,7 +170,9 @@ def build(case, rng):
             info["dof_n"] = dof_n
         elif base == "phasefield":
             mat = Models.Elastic.Isotropic(dim, E=210.0, v=0.3, planeStress=False, thickness=1.0)
-            pfm = Models.PhaseField(mat, str(rng.choice(["Miehe", "Amor", "Bourdin"])), "AT2", Gc=2.7, l0=0.3)
+            pfm = Models.PhaseField(mat, str(rng.choice(["Miehe", "Amor", "Bourdin"])), "AT2", Gc=2.7, l0=0.3,
+                                    solver=str(rng.choice(["History", "HistoryDamage", "BoundConstrain"])))
+            info["solver"] = str(pfm.solver)
             simu = Simulations.PhaseField(mesh, pfm)
             info["law"] = mat
         elif base == "hyperelastic":
@@ -485,6 +487,38 @@ def run_case(case: dict, ctx: Ctx) -> None:
                 nz = float(np.abs(want).max())
                 ctx.event("internal-variable-nonzero" if nz > 0 else "internal-variable-zero")
                 P.elemental(n, want, oracle="internal-variable", family="internal-variable")
+    if base == "hyperelastic" and len(mesh.Get_list_groupElem(dim)) == 1:
+        # active fibre stress: the reported second Piola-Kirchhoff stress is the passive one plus tau (T x T), for a scalar tau and
+        # for a per-element activation field that is zero in part of the elements
+        with ctx.monitored("no-exception", key0 + "/active-stress/raised"):
+            with quiet():
+                comps = NAMES2 if dim == 2 else NAMES3
+                passive = {c_: np.asarray(simu.Result("S" + c_, nodeValues=False), float).copy() for c_ in comps}
+                nPg = np.asarray(simu._Calc_SecondPiolaKirchhoff()).shape[1]
+                Tv = np.zeros(3)
+                Tv[:dim] = rng.normal(size=dim)
+                Tv /= np.linalg.norm(Tv)
+                from EasyFEA.FEM import FeArray as _Fe
+                simu.material.Set_active_stress_vec(_Fe.asfearray(np.broadcast_to(Tv, (Ne, nPg, 3)).copy()))
+                idx = {"xx": (0, 0), "yy": (1, 1), "zz": (2, 2), "yz": (1, 2), "xz": (0, 2), "xy": (0, 1)}
+                for form_ in ("scalar", "field-with-zeros", "field"):
+                    if form_ == "scalar":
+                        tau = float(rng.uniform(1, 5))
+                    else:
+                        tau = rng.uniform(1, 5, Ne)
+                        if form_ == "field-with-zeros":
+                            tau[rng.random(Ne) < 0.5] = 0.0
+                            tau[0] = 0.0
+                            tau[-1] = 3.0
+                    simu.material.active_stress = tau
+                    worst = 0.0
+                    for c_ in comps:
+                        got = np.asarray(simu.Result("S" + c_, nodeValues=False), float)
+                        i_, j_ = idx[c_]
+                        want = passive[c_] + np.asarray(tau) * Tv[i_] * Tv[j_]
+                        worst = max(worst, float(np.abs(got - want).max()))
+                    ctx.check("tensor-component", worst / 5.0, 1e-10, f"{key0}/active-stress/{form_}/S=S_passive+tau.TxT", Ne=Ne)
+                simu.material.active_stress = 0.0
     for n in ("ZZ1", "ZZ1_e", "W", "W_e", "Wdef", "Wdef_e", "Psi_Crack", "psiP", "p", "Strain", "Stress"):
         if n in names and n not in seen:
             seen.add(n)
